@@ -26,8 +26,11 @@ type shrinker struct {
 	lastV  violation
 }
 
+// spent reports that the shrinker's budget of candidate runs or of time is used up.
+func (s *shrinker) spent() bool { return s.runs >= s.maxRun || time.Now().After(s.until) }
+
 func (s *shrinker) try(sc scen.Scenario, tape []uint32) bool {
-	if s.runs >= s.maxRun || time.Now().After(s.until) {
+	if s.spent() {
 		return false
 	}
 	s.runs++
@@ -103,7 +106,7 @@ func (b *builder) minimiseAndSave(prop, tier string, f *foundV) (string, bool, s
 	// 3. delta-debug the operation list
 	shrinkOps := func() {
 		for chunk := (len(sc.Ops) + 1) / 2; chunk >= 1; chunk /= 2 {
-			for i := 0; i+chunk <= len(sc.Ops); {
+			for i := 0; i+chunk <= len(sc.Ops) && !s.spent(); {
 				cand := sc
 				cand.Ops = withoutOps(sc.Ops, i, i+chunk)
 				if s.try(cand, tape) {
@@ -121,7 +124,7 @@ func (b *builder) minimiseAndSave(prop, tier string, f *foundV) (string, bool, s
 	// 4. tape: shortest prefix, then zero individual entries
 	if len(tape) > 0 {
 		lo, hi := 0, len(tape)
-		for lo < hi {
+		for lo < hi && !s.spent() {
 			mid := (lo + hi) / 2
 			if s.try(sc, tape[:mid]) {
 				hi = mid
@@ -129,11 +132,11 @@ func (b *builder) minimiseAndSave(prop, tier string, f *foundV) (string, bool, s
 				lo = mid + 1
 			}
 		}
-		if hi < len(tape) && s.try(sc, tape[:hi]) {
+		if hi < len(tape) { // hi only ever moved to a prefix that reproduced
 			tape = append([]uint32(nil), tape[:hi]...)
 		}
 		for blk := len(tape) / 2; blk >= 1; blk /= 2 {
-			for i := 0; i+blk <= len(tape); i += blk {
+			for i := 0; i+blk <= len(tape) && !s.spent(); i += blk {
 				nz := false
 				for _, v := range tape[i : i+blk] {
 					if v != 0 {
@@ -151,7 +154,7 @@ func (b *builder) minimiseAndSave(prop, tier string, f *foundV) (string, bool, s
 					tape = cand
 				}
 			}
-			if blk == 1 || s.runs >= s.maxRun {
+			if blk == 1 || s.spent() {
 				break
 			}
 		}
